@@ -1322,7 +1322,8 @@ func (a *Adapter) Project(want SpecState, checkBalances bool) (diffs []string, r
 	if real.Revisable != (want.Tipd < 0) {
 		add("revisable: host %v but the tip is at proof height %+d", real.Revisable, want.Tipd)
 	}
-	if got := int(a.E.CM.Tip().Height) - int(rev.ProofHeight); got != want.Tipd {
+	// (the spec's -2 and below stand for "early": any tip more than one block before the proof height)
+	if got := int(a.E.CM.Tip().Height) - int(rev.ProofHeight); (want.Tipd >= -1 && got != want.Tipd) || (want.Tipd < -1 && got >= -1) {
 		add("tipd: chain tip is at proof height %+d, spec %+d", got, want.Tipd)
 	}
 	// (while the proof window has not opened; afterwards no revision at all can be confirmed)
